@@ -129,8 +129,9 @@ Definition C07_seamless_cursor_nu : Prop :=
 
 (* ------------------------------------------------------------------ target-cursor mode: filters with New and Undo, any stop block *)
 
-(* C07_seamless_target (Spec/C07_Compose_Spec.v, with its two agreement hypotheses files_on_hub / target_on_chain) for
-   every filter that lets New and Undo through and ANY stop block *)
+(* C07_seamless_target (Spec/C07_Compose_Spec.v, with its agreement hypothesis target_on_chain) for every filter that
+   lets New and Undo through and ANY stop block.  files_on_hub, which the target-cursor join by NUMBER needed
+   (Spec/C07_TargetUnfixed_Spec.v: C07_target_join_by_number_refuted), is gone with the fix "target join on identity" *)
 Definition C07_seamless_target_nu : Prop :=
   forall (U : list block) (c : jcfg) (w : world) (ps : list (N * N)) (merged_end : N) (canon forked : list block)
          (cu : cursor) (B : block),
@@ -138,28 +139,7 @@ Definition C07_seamless_target_nu : Prop :=
     hub_of_universe U c w ->
     chain_ok canon -> incl canon U ->
     let merged := filter (fun b => bnum b <? merged_end) canon in
-    eventual_tip c w canon -> files_on_hub c w merged -> target_on_chain c w cu ->
-    j_mode c = 2 -> j_cursor c = Some cu -> has_nu (j_filter c) (j_custom c) = true ->
-    0 < j_bundle c -> Forall (fun b => bnum b < file_bound) merged ->
-    In B canon -> bref B = cu_blk cu ->
-    let res := stream_run c w ps merged_end merged forked in
-    let start := run_start c w in
-    (exists b, In b canon /\ bnum b = start) ->
-    exists c', cons_fold_aside cons0 (map as_new (filter is_nu (fst res))) = Some c' /\
-               (snd res = JNil ->
-                  (exists D1 D2, from_num start merged = D1 ++ D2 /\ rev (cs_stack c') = D1) \/
-                  from_num start (rev (cs_stack c')) = from_num start canon).
-
-(* the same with files_on_hub discharged from "merged files hold final blocks only, for the hub too" (files_final,
-   Spec/C07_Compose_Spec.v: c07_files_final_on_hub); target_on_chain remains *)
-Definition C07_seamless_target_nu_final : Prop :=
-  forall (U : list block) (c : jcfg) (w : world) (ps : list (N * N)) (merged_end : N) (canon forked : list block)
-         (cu : cursor) (B : block),
-    wf_b U = true -> lib_ok_b LNone U = true ->
-    hub_of_universe U c w ->
-    chain_ok canon -> incl canon U ->
-    let merged := filter (fun b => bnum b <? merged_end) canon in
-    eventual_tip c w canon -> files_final c w merged -> target_on_chain c w cu ->
+    eventual_tip c w canon -> target_on_chain c w cu ->
     j_mode c = 2 -> j_cursor c = Some cu -> has_nu (j_filter c) (j_custom c) = true ->
     0 < j_bundle c -> Forall (fun b => bnum b < file_bound) merged ->
     In B canon -> bref B = cu_blk cu ->
